@@ -2,6 +2,7 @@ package main
 
 import (
 	"fmt"
+	"strings"
 	"time"
 )
 
@@ -143,7 +144,7 @@ type wfaultParams struct {
 // wfaultGroup enumerates every fault position for one (cfg, doc, path, stack).
 func wfaultGroup(p *wfaultParams, st *Stats, run int, cfg Config, doc []byte, kind, stack string, r *Rng, stride int) {
 	docs := [][]byte{doc}
-	base := Op{Kind: kind, Doc: 0, Stack: stack, Ctx: r.Chance(1, 4), Reader: kind == "ParseRender" && r.Chance(1, 4)}
+	base := Op{Kind: kind, Doc: 0, Stack: stack, Ctx: r.Chance(1, 4), Reader: (kind == "ParseRender" || kind == "RenderChild") && r.Chance(1, 4)}
 	R, ok := wfaultRef(cfg, docs, base)
 	if !ok {
 		st.Inc("control_failed")
@@ -285,6 +286,80 @@ func wfaultGroup(p *wfaultParams, st *Stats, run int, cfg Config, doc []byte, ki
 	}
 }
 
+// ---- boundary sweep -------------------------------------------------------------------------
+//
+// Which renderer call is in progress when goldmark's 4096-byte buffer becomes exactly full
+// depends on the document. The sweep puts a filler paragraph of n bytes in front of a small
+// template and varies n so that EVERY byte of the template's rendering lands on the buffer
+// boundary once: each WriteByte / WriteString / Write / Fprintf call of the node renderers
+// concerned meets a full buffer, a flush that fails, or a flush that accepts nothing. Per
+// document only the fault plans that matter at a boundary are run (no offset enumeration).
+
+var sweepTemplates = []string{
+	"a\nb  \nc\\\nd\n",
+	"# h {#i .c title=\"t\"}\n\nh2\n===\n",
+	"[a](/u \"t\") ![i](/p.png \"t\") <http://a.b> <span>x</span> &amp; &copy;\n",
+	"7. x\n8. y\n\n- [x] a\n- b\n",
+	"```go\nx<y\n```\n\n    i\n\n<div>\nh\n</div>\n",
+	"| a | b |\n|:-|-:|\n| c | d |\n",
+	"x[^1] ~~s~~ \"q\" -- ...\n\n[^1]: y\n\nt\n: d\n",
+	"> q\n\n---\n\n*e* **s** `c`\n",
+}
+
+func wfaultSweep(p *wfaultParams, st *Stats, run int, ti int, cfg Config, r *Rng) {
+	T := []byte(sweepTemplates[ti])
+	Rt, ok := wfaultRef(cfg, [][]byte{T}, Op{Kind: "Convert", Doc: 0})
+	if !ok {
+		st.Inc("control_failed")
+		return
+	}
+	const bufSize = 4096
+	over := len("<p>") + len("</p>\n")
+	for n := bufSize - over - len(Rt) - 2; n <= bufSize-over+1; n++ {
+		if stopAtFirst && len(st.Violations) > 0 {
+			return
+		}
+		doc := append(append([]byte(strings.Repeat("x", n)), "\n\n"...), T...)
+		docs := [][]byte{doc}
+		for _, stack := range []string{"W1", "W2:4096", "W2p:4096", pick(r, []string{"W1b", "W1s", "W1f"})} {
+			base := Op{Kind: pick(r, []string{"Convert", "ParseRender"}), Doc: 0, Stack: stack}
+			R, ok := wfaultRef(cfg, docs, base)
+			if !ok {
+				st.Inc("control_failed")
+				continue
+			}
+			st.Inc("sweep_groups")
+			plans := []*FaultPlan{nil, {Kind: "always"}, {Kind: "short+err", K: 0}, {Kind: "short+err", K: 1}, {Kind: "short+err", K: bufSize - 1}, {Kind: "short+err", K: bufSize}, {Kind: "short+err", K: bufSize + 1},
+				{Kind: "zero+err", J: 0}, {Kind: "zero+err", J: 1}, {Kind: "full+err", J: 0}, {Kind: "full+err", J: 1},
+				{Kind: "transient", J: 0, Shape: "zero"}, {Kind: "transient", J: 0, Shape: "short"}, {Kind: "transient", J: 1, Shape: "zero"}, {Kind: "short+nil", J: 0}}
+			for _, f := range plans {
+				op := base
+				op.Fault = f
+				v := wfaultOne(cfg, docs, op, R, st)
+				if f != nil && f.Kind != "short+nil" {
+					st.Inc("probe.sweep_faulted")
+				}
+				if v != nil && p.ctl != nil {
+					p.ctl.capture(&RunSpec{Property: p.prop, Engine: "wfault", VerifSeed: p.verifSeed, Run: run, Cfg: cfg, Docs: docs, Clients: [][]Op{{op}}}, v)
+					return
+				}
+				if v != nil {
+					st.Inc("violations_seen")
+					if len(st.Violations) < p.maxVio {
+						sp := &RunSpec{Property: p.prop, Engine: "wfault", VerifSeed: p.verifSeed, Run: run,
+							RunSeed: fmt.Sprintf("%#x", runSeed(p.verifSeed, "wfault", run)), Cfg: cfg, Docs: docs, Clients: [][]Op{{op}}}
+						reportViolation(sp, v, st, p.replayDir, !p.noMinimise)
+					}
+					return
+				}
+				if hung {
+					return
+				}
+			}
+		}
+	}
+}
+
 // nearBoundary keeps the interesting offsets when striding a large output: both ends and
 // +-8 around every multiple of goldmark's internal buffer size and of the W2 sizes.
 func nearBoundary(k, L int) bool {
@@ -356,6 +431,19 @@ func wfaultWorker(p *wfaultParams, st *Stats) {
 	if p.ctl == nil {
 		curProc = &ProcHistory{Tier: p.tier, Shard: p.shard, Of: p.of}
 	}
+	// boundary sweep: item numbers after the documents
+	for ti := range sweepTemplates {
+		i := len(items) + ti
+		if i%p.of != p.shard || p.ctl != nil && (i < p.ctl.from || i > p.ctl.until) {
+			continue
+		}
+		r := NewRng(runSeed(p.verifSeed, "wfault-sweep", i))
+		cfg := allOn
+		if r.Chance(1, 2) {
+			cfg.XHTML = true
+		}
+		wfaultSweep(p, st, i, ti, cfg, r)
+	}
 	for i, it := range items {
 		if i%p.of != p.shard {
 			continue
@@ -382,9 +470,12 @@ func wfaultWorker(p *wfaultParams, st *Stats) {
 			if cfg.IsDefault() {
 				paths = append(paths, "PkgConvert")
 			}
-			stacks := []string{"W1", fmt.Sprintf("W2:%d", pick(r, w2Sizes)), "W3", pick(r, []string{"W1f", "W1s", "W1b"})}
+			if r.Split("render-child").Chance(1, 3) || p.tier == "thorough" {
+				paths = append(paths, "RenderChild")
+			}
+			stacks := []string{"W1", fmt.Sprintf("W2:%d", pick(r, w2Sizes)), "W3", pick(r, []string{"W1f", "W1s", "W1b", fmt.Sprintf("W2p:%d", pick(r, w2Sizes))})}
 			if p.tier == "thorough" {
-				stacks = []string{"W1", "W2:16", "W2:17", "W2:64", "W2:4096", "W2:65536", "W3", "W1f", "W1s", "W1b"}
+				stacks = []string{"W1", "W2:16", "W2:17", "W2:64", "W2:4096", "W2:65536", "W3", "W1f", "W1s", "W1b", "W2p:17", "W2p:64", "W2p:4096"}
 			}
 			exPi, exSi := r.Intn(len(paths)), r.Intn(len(stacks))
 			for pi, kind := range paths {
